@@ -18,9 +18,9 @@ ROOT = os.path.dirname(os.path.dirname(os.path.abspath(__file__)))
 REQUIRED = ["no_loss", "admitted_by_commit", "only_admitted_delivered", "save_event_reaches_every_subscriber", "add_with_shelf_fault_admits_nothing", "duplicate_add_changes_nothing", "fact_save_event_all_or_nothing", "payload_event_per_transaction", "identical_payload_witness", "payload_no_loss_partial", "payload_available_no_loss_fails", "not_admitted_unchanged", "no_call_after_done",
             "no_call_after_done_split", "completed_job_gone", "call_after_done_without_presence_check", "call_after_done_when_write_back_recreates", "shared_key_witness",
             "delay_monotone", "delay_doubles", "resume_delay_continues", "resume_delay_monotone", "spawn_base_is_recorded_failures_plus_one", "typed_of_filter", "realSubs_are_the_registrations",
-            "resume_skips_event_finished_meanwhile", "restart_redelivers", "delivered_at_least_once", "eventual_delivery", "eventual_delivery_from_start", "failed_visible",
+            "resume_skips_event_finished_meanwhile", "restart_redelivers", "notify_reschedules_unless_fatal", "storage_fault_is_rescheduled", "rescheduled_loop_exists", "delivered_at_least_once", "eventual_delivery", "eventual_delivery_from_start", "failed_visible",
             "completed_or_visible", "parked_witness",
-            "fact_retry_constants", "fact_retry_arithmetic", "fact_retry_backoff", "fact_notifyNow_retries",
+            "fact_retry_constants", "fact_retry_arithmetic", "fact_retry_backoff", "fact_notifyNow_retries", "fact_notify_drops_only_event_fatal",
             "fact_run_replays_every_job", "fact_start_runs_every_notifier", "fact_receiver_error_classification", "fact_registration_receivers", "fact_cleanup_only_named_subscriber_and_prefix", "fact_subscribers_persist_on_the_dag_store", "fact_save_only_new_events", "fact_failed_events_threshold", "fact_save_in_write_tx_notify_after_commit",
             "fact_writePayload_skips_stored_payload", "fact_write_back_skips_removed_event", "fact_payload_handler_sequence", "fact_registrations"]
 
@@ -101,8 +101,11 @@ def oracle(h, threshold):
     for i, (op, line) in enumerate(zip(h.ops, h.lines)):
         status, calls, jobs, failed, tasks = parse_line(line)
         kind = op["op"]
-        if status.startswith("TIMEOUT") or status.startswith("bad-op") or status.startswith("err:other"):
-            report("C14:harness:" + status.split("(")[0], f"harness could not drive the implementation: {line[:200]}", i)
+        if "TIMEOUT" in status or status.startswith("bad-op") or status.startswith("err:other"):
+            what = "TIMEOUT-" + status.split("TIMEOUT-")[1] if "TIMEOUT-" in status else status.split("(")[0]
+            report("C14:harness:" + what, "the implementation did not do what the harness waits for (TIMEOUT-spawn: no retry loop was started after a "
+                   f"failed notification; TIMEOUT-fire: a fired loop neither ended nor came back): {line[:200]}", i)
+        status = status.split("+TIMEOUT")[0]
         # --- admissions of this line
         if kind == "add" and status in ("ok", "stop"):
             r = op["ref"]
@@ -145,10 +148,14 @@ def oracle(h, threshold):
                            f"subscriber {subs[s]['name']} called again for {ty} event of ref {r} (line {h.start + i}) after its completion was recorded (line {h.start + completed[(s, r)]})", i)
             if o == "doneFinishFail":
                 finfail_keys.add((s, r))
+            # a storage fault of the notifier itself INSIDE a running retry loop ends that loop (retry-go stops on
+            # Unrecoverable) - as coded, the job then waits for the next restart; during Notify / Run it is rescheduled
+            if o in ("readFault", "notDoneWriteFail", "failWriteFail") and kind == "fire":
+                finfail_keys.add((s, r))
             if o == "notDoneFin":   # Finished() ran (and deleted the job) while the receiver was running: completion is on record
                 completed.setdefault((s, r), i)
                 fin_during.add((s, r))
-            if o != "crash":
+            if o not in ("crash", "readFault"):
                 called.add((s, r))
                 types_delivered.setdefault((s, r), set()).add(ty)
         # --- completion records: done calls whose job is gone, Finished from outside that removed a job
